@@ -267,7 +267,63 @@ def check(run):
         run.count('created_' + str(o['created']))
         for s in o['steps']:
             run.count('put_' + str(s[0] if isinstance(s[0], bool) else 'other'))
+    check_downstream_error(run)
+
+
+def check_downstream_error(run, only=None):
+    """'accepted -> the output becomes schema(value) and the event returns True; otherwise it returns
+    False and the output stays unchanged': a ValueError raised DOWNSTREAM of an accepted put (by a filter
+    of the block's own on_output event) is not a validation failure - the put was accepted, the output has
+    changed, and the error is an error of the handler (it reaches the caller and stops the simulation)."""
+    import asyncio
+    from . import vloop
+    for variant in ('plain', 'validators'):
+        if only is not None and variant != only:
+            continue
+        obs = dict(ret=None, output=None, error=None, harness=None)
+
+        async def main(loop, variant=variant, obs=obs):
+            edzed.reset_circuit()
+            circuit = edzed.get_circuit()
+            sink = edzed.Input('sink', initdef=0.0)
+            kw = {} if variant == 'plain' else dict(allowed=['abc', 'x', 1], check=lambda v: True, schema=lambda v: v)
+            inp = edzed.Input('inp', initdef=1, on_output=edzed.Event(
+                sink, 'put', efilter=(edzed.not_from_undef, lambda data: {'value': float(data['value'])})), **kw)
+            task = asyncio.create_task(circuit.run_forever())
+            await circuit.wait_init()
+            try:
+                obs['ret'] = ['returned', inp.event('put', value='abc')]
+            except Exception as err:         # noqa
+                obs['ret'] = ['raised', type(err).__name__]
+            obs['output'] = inp.output
+            await asyncio.sleep(0)
+            obs['error'] = None if circuit.error is None else type(circuit.error).__name__
+            try:
+                await circuit.shutdown()
+            except BaseException:            # noqa
+                pass
+        try:
+            vloop.run_virtual(main, wall_limit_s=10.0)
+        except BaseException as err:         # noqa
+            obs['harness'] = repr(err)[:200]
+        finally:
+            edzed.reset_circuit()
+        run.add_case(dict(downstream_error=variant), True)
+        run.count('downstream_error')
+        ok = (obs['harness'] is None and obs['ret'] == ['raised', 'ValueError'] and obs['output'] == 'abc'
+              and obs['error'] is not None)
+        run.add_obligation(ok)
+        if not ok:
+            run.violation('monitor', dict(case=dict(downstream_error=variant), observed=obs),
+                          f"Input ({variant}) put 'abc' - a valid value - whose on_output event has a filter raising "
+                          f"ValueError: event() -> {obs['ret']} (expected the ValueError), output {obs['output']!r} "
+                          f"(expected 'abc'), Circuit.error={obs['error']} (expected an error: a failing handler stops "
+                          f"the simulation); harness: {obs['harness']}", clause='downstream_error:' + variant,
+                          concrete=True)
 
 
 def replay(run, path):
+    _, case = common.load_replay_case(path)
+    if isinstance(case, dict) and 'downstream_error' in case:
+        return common.directed_replay(run, path, lambda: check_downstream_error(run, case['downstream_error']))
     return common.std_replay(run, C17(), path)
